@@ -42,3 +42,30 @@ def drawn_seed_is_the_one_used(opt, f_space):
     kept = e._script.rng_seed
     mine = sc.rng_seed
     return isinstance(kept, int) and (got - kept) % (2 ** 32) == 0 and kept == mine and e._script.copy().rng_seed == kept
+
+
+def engine_reuse_is_fresh(opt, f_space, edit):
+    """an engine object that already simulated gives, for a script edited in place since then, exactly what a fresh engine object gives
+    (nothing about the earlier set-up survives in the Python wrapper)"""
+    option = ["euler", "tauleap", "gillespie"][opt]
+    sc = mk_script(0, f_space, 0, 1, 7)
+    lib = RecLib()
+    e = LibRDEngine(lib, option=option, requires_molecules=option != "euler")
+    e.setup(sc)
+    net = sc.system.network
+    if edit == 0:
+        net.reactions[0].kf = 6.5                                  # a rate constant edited in place (parameter scan)
+    elif edit == 1:
+        net.reactions[0].kr = {"e0": 2.0, "e1": 0.125}
+    elif edit == 2:
+        net.species[0].D = 3.25
+    elif edit == 3:
+        sc.system.set_state(0, 0, 41.0)
+    elif edit == 4:
+        sc.system.set_chemostat(1, 0, 1 - int(sc.system.get_chemostat(1, 0)))
+    else:
+        sc.time_step = 0.0625
+    e.setup(sc)
+    calls = [c for c in lib.log if c[0].startswith("engineexport_initialize")]
+    fresh = _abi(option, sc)
+    return len(calls) == 2 and calls[1] == fresh and calls[0] != calls[1]
